@@ -41,6 +41,23 @@ fn pick_width(rng: &mut Rng) -> u32 {
     }
 }
 
+/// a `Write` that takes at most `max` bytes per call
+struct Chunky {
+    buf: Vec<u8>,
+    max: usize,
+}
+
+impl std::io::Write for Chunky {
+    fn write(&mut self, b: &[u8]) -> std::io::Result<usize> {
+        let n = b.len().min(self.max);
+        self.buf.extend_from_slice(&b[..n]);
+        Ok(n)
+    }
+    fn flush(&mut self) -> std::io::Result<()> {
+        Ok(())
+    }
+}
+
 fn name(rng: &mut Rng, k: usize) -> String {
     // names that look like the ones the printer invents for unnamed signals (`state_<i>`, `input_<i>`), at their own
     // index and at others
@@ -226,7 +243,7 @@ impl Check for C16 {
         "witnesses_round_tripped"
     }
     fn rule(&self) -> String {
-        "G4 complete witnesses: 1-3 failed properties (any order, indices up to 2^32-1), 0-6 states (bit-vectors of widths 1..200 and arrays with 1..2^iw recorded entries for iw<=5 or up to 12 entries for iw up to 64 (the array value type of the bit-vector library cannot hold wider indices at all), zero-valued entries, dense and sparse carriers with arbitrary defaults, recorded index list in any order), 0-5 bit-vector inputs, 0-8 steps (zero steps in one of eight witnesses, with or without an init frame), names over the printable alphabet without whitespace ; @ #. mode single: parse_witness(witness_to_string(w)) compared field by field (array contents at every recorded index); mode stream: 2-5 witnesses concatenated, parse_witnesses with every limit 1..=k must return the first `limit` witnesses in order. distinct_nontrivial = distinct witness texts with at least one state or input.".into()
+        "G4 complete witnesses: 1-3 failed properties (any order, indices up to 2^32-1), 0-6 states (bit-vectors of widths 1..200 and arrays with 1..2^iw recorded entries for iw<=5 or up to 12 entries for iw up to 64 (the array value type of the bit-vector library cannot hold wider indices at all), zero-valued entries, dense and sparse carriers with arbitrary defaults, recorded index list in any order), 0-5 bit-vector inputs, 0-8 steps (zero steps in one of eight witnesses, with or without an init frame), names over the printable alphabet without whitespace ; @ #. mode single: parse_witness(witness_to_string(w)) compared field by field (array contents at every recorded index); mode stream: 2-5 witnesses concatenated, parse_witnesses with every limit 1..=k must return the first `limit` witnesses in order, larger limits (a few more, or huge: usize::MAX, 2^40) all of them; a third of the witnesses are also printed with print_witness into a sink that accepts 1-9 bytes per write call and must arrive complete. distinct_nontrivial = distinct witness texts with at least one state or input.".into()
     }
     fn assumptions(&self) -> Vec<String> {
         vec!["inputs are bit-vectors (the printer documents array inputs as unsupported); every state/input has a name and a value (complete witness)".into()]
@@ -239,7 +256,21 @@ impl Check for C16 {
         for w in &ws {
             let p = to_patronus(w, &mut rng);
             match util::catch(|| witness_to_string(&p)) {
-                Ok(t) => text.push_str(&t),
+                Ok(t) => {
+                    // the printer proper takes any `Write`: a sink that accepts only a few bytes per call (a pipe, a
+                    // size-limited buffer) must receive the same text
+                    if rng.chance(1, 3) {
+                        let mut sink = Chunky { buf: vec![], max: rng.range(1, 9) as usize };
+                        let r = util::catch(|| patronus::btor2::print_witness(&mut sink, &p));
+                        sh.count("witnesses_printed_into_a_short_writing_sink", 1);
+                        let got = String::from_utf8_lossy(&sink.buf).to_string();
+                        if !matches!(r, Ok(Ok(()))) || got != t {
+                            sh.violation("C16|printer|sink-dependent", format!("print_witness into a sink that takes at most {} bytes per write call delivered {} of {} bytes (result {:?})\n--- expected\n{}\n--- delivered\n{}", sink.max, got.len(), t.len(), r.map(|x| x.map_err(|e| e.to_string())).map_err(|p| p.msg), util::trunc(&t, 1500), util::trunc(&got, 1500)), json!({}));
+                            return;
+                        }
+                    }
+                    text.push_str(&t)
+                }
                 Err(pi) => {
                     sh.violation(format!("C16|printer-panic|{}", pi.loc()), format!("witness_to_string panicked at {}: {}\n{w:?}", pi.loc(), util::trunc(&pi.msg, 200)), json!({}));
                     return;
@@ -252,11 +283,18 @@ impl Check for C16 {
         for w in &ws {
             sh.hist("shape", &format!("states={} arrays={} inputs={}", w.init.len().min(3), w.init.iter().filter(|i| matches!(i, IV::A { .. })).count().min(2), w.input_names.len().min(3)));
         }
-        for limit in 1..=k {
+        // every limit up to the number written, and limits beyond it ("read them all")
+        let mut limits: Vec<usize> = (1..=k).collect();
+        limits.push(k + 1 + rng.below(9) as usize);
+        if rng.chance(1, 2) {
+            limits.push(*rng.pick(&[usize::MAX, usize::MAX / 2, u32::MAX as usize, 1 << 40]));
+        }
+        for limit in limits {
             let res = util::catch(|| {
                 let mut rd = std::io::BufReader::new(text.as_bytes());
-                if k == 1 { parse_witness(&mut rd).map(|w| vec![w]) } else { parse_witnesses(&mut rd, limit) }
+                if k == 1 && limit == 1 { parse_witness(&mut rd).map(|w| vec![w]) } else { parse_witnesses(&mut rd, limit) }
             });
+            sh.hist("limits", if limit <= k { "<= written" } else if limit < 1000 { "a few more than written" } else { "huge" });
             let got = match res {
                 Err(pi) => {
                     sh.violation(format!("C16|reader-panic|{}", pi.loc()), format!("reading the printed witness panicked at {}: {}\n{}", pi.loc(), util::trunc(&pi.msg, 200), util::trunc(&text, 3000)), json!({"text": text}));
@@ -268,7 +306,7 @@ impl Check for C16 {
                 }
                 Ok(Ok(v)) => v,
             };
-            if got.len() != limit {
+            if got.len() != limit.min(k) {
                 sh.violation("C16|stream-count", format!("{} witnesses written, limit {limit}: {} returned\n{}", k, got.len(), util::trunc(&text, 3000)), json!({"text": text}));
                 return;
             }
